@@ -165,8 +165,12 @@ def shard(args):
         out["nodes"] += len(nodes)
         out["phases"]["after-build"] = out["phases"].get("after-build", 0) + 1
         # after an edit history (guarded domain of C01)
-        for _ in range(rng.randint(1, 4)):
+        for k_ in range(rng.randint(1, 4)):
             op = eo.gen_op(rng, live.spec, True)
+            if k_ == 0 and i % 3 == 1:
+                # structural growth first, when the planted corners allow it: a job of a server the system does not use
+                # yet placed in a step without jobs (the system must still end the recomputation chain)
+                op = eo.growth_op(live.spec, rng) or op
             if op and eo.safe_after(live, op):
                 if live.apply(op)[0] == "err":
                     break
